@@ -138,6 +138,7 @@ def run(ctx):
     predicate_stream(ctx, cirq, mods, checks, n)
     cv_stream(ctx, cirq, mods, checks, n)
     tdb_grid(ctx, cirq, mods, checks)
+    phase_pair_grid(ctx, cirq, mods, checks)
     evaluate(ctx, checks)
 
 
@@ -453,6 +454,16 @@ def predicate_stream(ctx, cirq, mods, checks, n):
     stab_fams = gates.FAST + ['ISwapPow', 'CCZPow', 'CCXPow', 'ZZPow', 'XXPow', 'YYPow', 'CYPow']
     grid = [E(f, e, s) for f in stab_fams for e in gates.SPECIAL_EXP + [0.3, 1.0000001] for s in (0.0, 0.5, -0.5, 0.25)]
     grid += [gates.draw(rng, rng.choice(['PhasedX', 'PhasedXZ', 'GlobalPhase', 'Rx', 'Ry', 'Rz', 'FSim', 'Ctrl', 'Identity', 'PhasedISwap', 'CSwap', 'MS', 'Givens', 'Diagonal', 'Matrix'])) for _ in range(120 * n)]
+    # every combination of quarter / eighth-turn values of ALL the parameters of the multi-parameter families (closed-form answers
+    # keyed on a conjunction of special values), fixed for every seed
+    import itertools as _it
+    qexp = [0.0, 0.25, 0.5, 0.75, 1.0, 1.5, -0.5, -0.25, 2.0, 0.125]
+    qang = [0.0, math.pi / 4, math.pi / 2, math.pi, 3 * math.pi / 2, -math.pi / 2, math.pi / 8, 2 * math.pi]
+    for fam in ('PhasedX', 'PhasedXZ', 'PhasedISwap', 'FSim', 'Givens', 'MS', 'Rx', 'Ry', 'Rz'):
+        base = gates.draw(rng, fam)
+        names = [k for k, v in base.p.items() if isinstance(v, float) and (k in gates.EXP_LIKE or k in gates.ANGLE_LIKE)]
+        for vals in _it.product(*[(qexp if k in gates.EXP_LIKE else qang) for k in names]):
+            grid.append(gates.G(fam, dict(base.p, **dict(zip(names, vals))), base.shape))
     for g in grid:
         if any(d != 2 for d in g.shape) or not g.shape:
             continue
@@ -524,7 +535,7 @@ def predicate_stream(ctx, cirq, mods, checks, n):
                            dict(signature='equality:controlled_op', sub=sub.key(), cdims=cdims, cv1=cv1, cv2=cv2, order2=order2)))
     # ---- equality of one gate on permuted qubits (interchangeable-qubit declarations): a True answer means the matrix is
     #      invariant under that permutation of its qubits.  Fixed grid for every seed + random draws ----
-    import math
+    pass
     perm_cands = []
     for fam in ('CZPow', 'CXPow', 'CYPow', 'SwapPow', 'ISwapPow', 'XXPow', 'YYPow', 'ZZPow', 'CCZPow', 'CCXPow', 'CCYPow'):
         for e in (1.0, 0.5, 0.3):
@@ -659,6 +670,62 @@ def tdb_grid(ctx, cirq, mods, checks):
             if not (b >= t - 1e-7):
                 checks.append(('tdb_grid', 'false', f'trace_distance_bound({name} [{fname}]) = {b} is below the actual maximal trace distance {t}',
                                dict(signature=f'tdb_grid:{type(obj).__name__}:{fname}', obj=name, form=fname, bound=float(b), actual=float(t))))
+
+
+def phase_pair_grid(ctx, cirq, mods, checks):
+    """Pairs of gates that differ ONLY by a global phase, put inside every wrapper that turns (or does not turn) that phase into a
+    relative one - ControlledGate / controlled_by with one or two controls, a qutrit control, ParallelGate, CircuitOperation, tags -
+    and asked ==, approx_eq and equal_up_to_global_phase: a True answer must hold for the matrices of the two wrapped objects
+    (fixed for every seed)."""
+    q = cirq.LineQubit.range(6)
+    th = 0.37 * math.pi
+    rnd = gates.random_unitary(ctx.rng, 2)
+    pairs = [('rz(t) / Z**(t/pi)', cirq.rz(th), cirq.Z**(th / math.pi)), ('rx(t) / X**(t/pi)', cirq.rx(th), cirq.X**(th / math.pi)),
+             ('ry(pi) / Y', cirq.ry(math.pi), cirq.Y), ('XPow(0.3) / XPow(0.3, shift 0.5)', cirq.X**0.3, cirq.XPowGate(exponent=0.3, global_shift=0.5)),
+             ('Z / ZPow(1, shift -0.5)', cirq.Z, cirq.ZPowGate(exponent=1.0, global_shift=-0.5)), ('H / HPow(1, shift 0.25)', cirq.H, cirq.HPowGate(exponent=1.0, global_shift=0.25)),
+             ('MatrixGate(U) / MatrixGate(iU)', cirq.MatrixGate(rnd), cirq.MatrixGate(1j * rnd)), ('MatrixGate(U) / MatrixGate(-U)', cirq.MatrixGate(rnd), cirq.MatrixGate(-rnd)),
+             ('ms(pi/4) / XX**0.5', cirq.ms(math.pi / 4), cirq.XX**0.5), ('CZ**0.5 / CZPow(0.5, shift 1)', cirq.CZ**0.5, cirq.CZPowGate(exponent=0.5, global_shift=1.0)),
+             ('PhasedX(0.5, 0.2) / PhasedX(0.5, 0.2, shift 0.3)', cirq.PhasedXPowGate(exponent=0.5, phase_exponent=0.2), cirq.PhasedXPowGate(exponent=0.5, phase_exponent=0.2, global_shift=0.3)),
+             ('X / X (control: same gate)', cirq.X, cirq.X), ('S / Z**0.5', cirq.S, cirq.Z**0.5), ('T / ZPow(0.25, shift 2)', cirq.T, cirq.ZPowGate(exponent=0.25, global_shift=2.0))]
+    wrappers = [('bare gate', lambda g: g), ('ControlledGate', lambda g: cirq.ControlledGate(g)), ('ControlledGate(control value 0)', lambda g: cirq.ControlledGate(g, control_values=[0])),
+                ('ControlledGate(2 controls)', lambda g: cirq.ControlledGate(g, num_controls=2)),
+                ('ControlledGate(qutrit control, values 1 or 2)', lambda g: cirq.ControlledGate(g, control_values=[(1, 2)], control_qid_shape=(3,))),
+                ('ControlledGate(ControlledGate)', lambda g: cirq.ControlledGate(cirq.ControlledGate(g))),
+                ('gate.controlled()', lambda g: g.controlled()), ('operation', lambda g: g.on(*q[1:1 + cirq.num_qubits(g)])),
+                ('operation.controlled_by(q0)', lambda g: g.on(*q[1:1 + cirq.num_qubits(g)]).controlled_by(q[0])),
+                ('tagged operation.controlled_by(q0)', lambda g: g.on(*q[1:1 + cirq.num_qubits(g)]).with_tags('t').controlled_by(q[0])),
+                ('ParallelGate x2', lambda g: cirq.ParallelGate(g, 2) if cirq.num_qubits(g) == 1 else None),
+                ('ControlledGate(ParallelGate x2)', lambda g: cirq.ControlledGate(cirq.ParallelGate(g, 2)) if cirq.num_qubits(g) == 1 else None),
+                ('CircuitOperation', lambda g: cirq.CircuitOperation(cirq.FrozenCircuit(g.on(*q[1:1 + cirq.num_qubits(g)])))),
+                ('CircuitOperation.controlled_by(q0)', lambda g: cirq.CircuitOperation(cirq.FrozenCircuit(g.on(*q[1:1 + cirq.num_qubits(g)]))).controlled_by(q[0]))]
+    for pname, a, b in pairs:
+        for wname, w in wrappers:
+            try:
+                wa, wb = w(a), w(b)
+            except Exception:
+                continue
+            if wa is None:
+                continue
+            for x, y, order in ((wa, wb, 'a,b'), (wb, wa, 'b,a')):
+                try:
+                    answers = {'==': bool(x == y), 'approx_eq': bool(cirq.approx_eq(x, y, atol=1e-8)), 'equal_up_to_global_phase': bool(cirq.equal_up_to_global_phase(x, y, atol=1e-8))}
+                    ux, uy = unitary_of(cirq, x), unitary_of(cirq, y)
+                except Exception as e:
+                    ctx.violation('phase_pair:raises', f'{wname} of {pname} ({order}): a predicate or cirq.unitary raised {type(e).__name__}: {e}', dict(kind='phase_pair', pair=pname, wrapper=wname))
+                    continue
+                for pred, ans in answers.items():
+                    ctx.count('phase_pair', [pname, wname, order, pred], ans, sample=dict(pair=pname, wrapper=wname, predicate=pred, answer=ans))
+                    if not ans or ux.shape != uy.shape:
+                        if ans:
+                            checks.append(('phase_pair', 'false', f'{pred} answered True for {wname} of {pname} but the two objects have different shapes', dict(signature=f'phase_pair:{pred}:{wname}', pair=pname, wrapper=wname)))
+                        continue
+                    shp = tuple(cirq.qid_shape(x))
+                    ga, gb = gates.G('Matrix', dict(m=ux), shp), gates.G('Matrix', dict(m=uy), shp)
+                    close = 'fcll_close_phase' if pred == 'equal_up_to_global_phase' else 'fcll_close'
+                    checks.append(('phase_pair', f'{close} 0x1p-18 (gate_model FOps {ga.coq()}) (gate_model FOps {gb.coq()})',
+                                   f'{pred} answered True for {wname} of {pname} ({order}) but the matrices of the two wrapped objects ' +
+                                   ('are not proportional' if pred == 'equal_up_to_global_phase' else 'differ'),
+                                   dict(signature=f'phase_pair:{pred}:{wname}', pair=pname, wrapper=wname, order=order)))
 
 
 def replay(ctx, data):
